@@ -1,21 +1,35 @@
 import Juniper.Driver.Basic
 import Juniper.Driver.ParConform
 import Juniper.Model.ParDo
-/-! Conformance driver for the `parallel.Do` / `DoContext` model (C13): `driver pardo`.
+import Juniper.Model.ParWrap
+/-! Conformance driver for the `parallel.Do` / `DoContext` model and the `Map` / `MapContext` wrapper model
+(C13): `driver pardo`.
 
-Lines: `init do|dc <P> <n> <gmp>`, `cancel`, `end <idx> ok <v>`, `end <idx> err <k>`,
+Lines: `init do|dc|map|mapctx <P> <n> <gmp>`, `cancel`, `end <idx> ok <v>`, `end <idx> err <k>`,
 `obs <observation>`. The driver keeps the set of model states compatible with the observations so
 far; the answer is `ok <number of states>` or `empty …` (the implementation did something the model
-cannot do) . -/
+cannot do).
+
+`do` / `dc` run the LTS of `Model/ParDo.lean`; `map` / `mapctx` run the wrapper LTS of `Model/ParWrap.lean`
+with `in = [1000, 1001, …]` (what the harness passes): the index the harness sees for a call of the user's
+`f` is `in[readIdx i] - 1000`, the context state it sees is the one of the context the regenerated binder
+facts hand to `f`, `out` is the slice the wrapper returns — all through the regenerated wrapper facts.
+
+Observation: `b=[idx:cancelledAtEntry,…] run=[…] cx=<-|0|1> ret=… out=[…]`; `cx` = is the context of the
+calls in progress cancelled right now (`-` when no call is in progress or the function takes no context). -/
 namespace Juniper.Driver.C13
-open Juniper.Driver Juniper.Driver.ParConform Juniper.Model.ParDo
+open Juniper.Driver Juniper.Driver.ParConform Juniper.Model.ParDo Juniper.Model.ParWrap
 
 structure DSt where
   cfg : Cfg := { code := dcCode, P := 1, n := 0, gmp := 1 }
   states : List St := []
+  /-- wrapper modes -/
+  wcfg : Option (WCfg Nat) := none
+  wstates : List (WSt Nat) := []
   overflow : Bool := false
 
 def sys (cfg : Cfg) : Sys St Label := { step := step cfg, internal := internalLabels }
+def wsys (wc : WCfg Nat) : Sys (WSt Nat) Label := { step := wstep wc, internal := fun s => internalLabels s.core }
 
 def showErr : Err → String
   | .f k => s!"E{k}"
@@ -27,46 +41,94 @@ def showRet : Option (Option Err) → String
   | some none => "nil"
   | some (some e) => showErr e
 
-def runningIdx (s : St) : List Nat :=
-  (s.ws.filterMap (fun pc => match pc with | .inF i => some i | _ => none)).mergeSort
+def runningOf (ws : List Pc) : List Nat :=
+  ws.filterMap (fun pc => match pc with | .inF i => some i | _ => none)
 
 def showOut (o : List (Option Nat)) : String :=
   joinWith "," (o.map fun | none => "_" | some v => toString v)
 
-/-- canonical observation of a quiescent state -/
-def obsOf (s : St) : String :=
+def showCx (ctxMode : Bool) (anyRunning : Bool) (cancelled : Bool) : String :=
+  if !ctxMode || !anyRunning then "-" else if cancelled then "1" else "0"
+
+/-- canonical observation of a quiescent state of `Do` / `DoContext` -/
+def obsOf (cfg : Cfg) (s : St) : String :=
   let b := joinWith "," (s.begun.map fun b => s!"{b.idx}:{if b.cancelled then 1 else 0}")
-  let r := joinWith "," ((runningIdx s).map toString)
-  s!"b=[{b}] run=[{r}] ret={showRet s.ret} out=[{if s.ret == some none then showOut s.out else ""}]"
+  let run := (runningOf s.ws).mergeSort
+  let r := joinWith "," (run.map toString)
+  s!"b=[{b}] run=[{r}] cx={showCx cfg.code.ctxMode (!run.isEmpty) (ctxCancelled s)} ret={showRet s.ret} out=[]"
+
+/-- the index the harness sees for the callee's index `i`: the element handed to `f`, minus 1000 -/
+def obsIdx (wc : WCfg Nat) (i : Nat) : Nat :=
+  match getAt wc.inp (wc.w.readIdx i wc.inp.length (wc.w.alloc wc.inp.length)) with
+  | some a => a - 1000
+  | none => 9999
+
+/-- canonical observation of a quiescent state of `Map` / `MapContext` -/
+def wobsOf (wc : WCfg Nat) (s : WSt Nat) : String :=
+  if s.panic then "panic" else
+  let b := joinWith "," (s.calls.map fun c => s!"{c.arg - 1000}:{if c.cancelled then 1 else 0}")
+  let run := ((runningOf s.core.ws).map (obsIdx wc)).mergeSort
+  let r := joinWith "," (run.map toString)
+  let ret := match s.wret with
+    | none => "-"
+    | some w => (match w.err with | none => "nil" | some e => showErr e)
+  let out := match s.wret with
+    | some ⟨some o, none⟩ => showOut o
+    | some ⟨none, none⟩ => "nil"
+    | _ => ""
+  s!"b=[{b}] run=[{r}] cx={showCx wc.w.code.ctxMode (!run.isEmpty) (userCtxCancelled wc s)} ret={ret} out=[{out}]"
 
 def reply (d : DSt) : DSt × String :=
   if d.overflow then (d, "overflow") else
-  if d.states.isEmpty then (d, "empty") else (d, s!"ok {d.states.length}")
+  match d.wcfg with
+  | none => if d.states.isEmpty then (d, "empty") else (d, s!"ok {d.states.length}")
+  | some _ => if d.wstates.isEmpty then (d, "empty") else (d, s!"ok {d.wstates.length}")
 
-def act (d : DSt) (f : St → Option St) : DSt × String :=
-  let (st, ok) := advance (sys d.cfg) d.states f
-  reply { d with states := st, overflow := d.overflow || !ok }
+/-- apply an environment label (chosen per state from its program counters) to every state -/
+def act (d : DSt) (lab : List Pc → (Nat → Nat) → Option Label) : DSt × String :=
+  match d.wcfg with
+  | none =>
+    let (st, ok) := advance (sys d.cfg) d.states (fun s => (lab s.ws id).bind (Model.ParDo.step d.cfg s))
+    reply { d with states := st, overflow := d.overflow || !ok }
+  | some wc =>
+    let (st, ok) := advance (wsys wc) d.wstates (fun s => (lab s.core.ws (obsIdx wc)).bind (wstep wc s))
+    reply { d with wstates := st, overflow := d.overflow || !ok }
 
-def findWorker (s : St) (i : Nat) : Option Nat :=
-  s.ws.findIdx? (fun pc => pc == .inF i)
+/-- the worker in which the call the harness names `i` is in progress -/
+def findEnd (i : Nat) (r : Res) (ws : List Pc) (obs : Nat → Nat) : Option Label :=
+  (ws.findIdx? (fun pc => match pc with | .inF j => obs j == i | _ => false)).map fun w => Label.fEnd w r
 
 def step (d : DSt) : List String → DSt × String
   | ["init", mode, p, n, g] =>
-    let cfg : Cfg := { code := if mode == "do" then doCode else dcCode, P := intOr p, n := natOr n, gmp := natOr g 1 }
-    let d := { d with cfg := cfg, states := [init cfg], overflow := false }
-    act d some
-  | ["cancel"] => act d (fun s => Model.ParDo.step d.cfg s .callerCancel)
-  | ["end", i, "ok", v] =>
-    act d (fun s => (findWorker s (natOr i)).bind fun w => Model.ParDo.step d.cfg s (.fEnd w (.ok (natOr v))))
-  | ["end", i, "err", k] =>
-    act d (fun s => (findWorker s (natOr i)).bind fun w => Model.ParDo.step d.cfg s (.fEnd w (.err (natOr k))))
+    if mode == "map" || mode == "mapctx" then
+      let wc : WCfg Nat := { w := if mode == "map" then mapWrapper else mapContextWrapper, P := intOr p,
+                             inp := (List.range (natOr n)).map (· + 1000), gmp := natOr g 1 }
+      let d := { d with wcfg := some wc, wstates := [winit wc], states := [], overflow := false }
+      let (st, ok) := advance (wsys wc) d.wstates some
+      reply { d with wstates := st, overflow := !ok }
+    else
+      let cfg : Cfg := { code := if mode == "do" then doCode else dcCode, P := intOr p, n := natOr n, gmp := natOr g 1 }
+      let d := { d with cfg := cfg, states := [init cfg], wcfg := none, wstates := [], overflow := false }
+      let (st, ok) := advance (sys cfg) d.states some
+      reply { d with states := st, overflow := !ok }
+  | ["cancel"] => act d (fun _ _ => some .callerCancel)
+  | ["end", i, "ok", v] => act d (findEnd (natOr i) (.ok (natOr v)))
+  | ["end", i, "err", k] => act d (findEnd (natOr i) (.err (natOr k)))
   | "obs" :: rest =>
     let want := joinWith " " rest
-    let keep := d.states.filter (fun s => obsOf s == want)
-    if keep.isEmpty && !d.overflow then
-      let have_ := dedupStrings (d.states.map obsOf)
-      ({ d with states := [] }, s!"empty want<{want}> model-allows<{joinWith " | " (have_.take 6)}> ({have_.length} alternatives)")
-    else reply { d with states := keep }
+    match d.wcfg with
+    | none =>
+      let keep := d.states.filter (fun s => obsOf d.cfg s == want)
+      if keep.isEmpty && !d.overflow then
+        let have_ := dedupStrings (d.states.map (obsOf d.cfg))
+        ({ d with states := [] }, s!"empty want<{want}> model-allows<{joinWith " | " (have_.take 6)}> ({have_.length} alternatives)")
+      else reply { d with states := keep }
+    | some wc =>
+      let keep := d.wstates.filter (fun s => wobsOf wc s == want)
+      if keep.isEmpty && !d.overflow then
+        let have_ := dedupStrings (d.wstates.map (wobsOf wc))
+        ({ d with wstates := [] }, s!"empty want<{want}> model-allows<{joinWith " | " (have_.take 6)}> ({have_.length} alternatives)")
+      else reply { d with wstates := keep }
   | _ => (d, "bad-op")
 
 def handler : Handler := { σ := DSt, init := {}, step := step }
